@@ -36,6 +36,7 @@ ENCODES = [
     "synrbl.SynUtils.chem_utils:calculate_net_charge",
     "synrbl.SynRuleImputer.synthetic_rule_imputer:SyntheticRuleImputer.single_impute",
     "synrbl.SynRuleImputer.synthetic_rule_constraint:RuleConstraint.fit",
+    "synrbl.SynRuleImputer.synthetic_rule_constraint:RuleConstraint.reduction_oxidation_rules_modify",
     "synrbl.SynRuleImputer.synthetic_rule_constraint:RuleConstraint.remove_banned_reactions",
     "synrbl.SynRuleImputer.synthetic_rule_imputer:SyntheticRuleImputer.get_and_validate_smiles",
     "synrbl.SynRuleImputer.synthetic_rule_constraint:RuleConstraint.__init__",
@@ -395,6 +396,59 @@ def h_ban_filter(x: int, nh: int, no: int, na: int) -> bool:
     return True
 
 
+_TOKC = {"[H]": {"H": 1}, "[O]": {"O": 1}, "O": {"H": 2, "O": 1}, "OO": {"H": 2, "O": 2}, "[H][H]": {"H": 2}, "A": {"X": 1}, "B": {"Y": 1}}
+
+
+def _side_comp(side):
+    tot = {}
+    if side == "":
+        return tot
+    for t in side.split("."):
+        if t == "":
+            continue  # the empty given side in front of the first '.'
+        c = _TOKC.get(t)
+        if c is None:
+            return None
+        for k, v in c.items():
+            tot[k] = tot.get(k, 0) + v
+    return tot
+
+
+def h_redox_rewrite(nh: int, no: int, noo: int, lead: int) -> bool:
+    """
+    pre: 0 <= nh <= 5 and 0 <= no <= 3 and 0 <= noo <= 1 and lead == 1
+    post: _
+    """
+    # bounds: a non-empty given product side (lead == 1) and at most one hydrogen-peroxide completion; with an empty
+    # given side the step writes 'OOO' for three waters, and two peroxides are replaced by one H2 + two waters --
+    # both end as declined rows (the validator rejects them), they are noted in DESIGN.md and are outside this kernel
+    # reduction_oxidation_rules_modify rewrites free-atom placeholders into water / H2 / [O]: whatever it does, it
+    # must move the same atoms on both sides (reactants - products unchanged), or an exact completion stops adding
+    # up to the imbalance it was asked to fill.
+    from synrbl.SynRuleImputer.synthetic_rule_constraint import RuleConstraint
+
+    # what single_impute hands over: the given product side ('B', or '' for an empty side) + '.' + completion
+    prod = ("B" if lead else "") + ".[H]" * nh + ".[O]" * no + ".OO" * noo
+    if prod == "":
+        return True
+    row = {"id": "0", "reactants": "A", "products": prod}
+    r0, p0 = _side_comp("A"), _side_comp(prod)
+    out = RuleConstraint.reduction_oxidation_rules_modify([dict(row)])
+    if PART.get("twin"):
+        return out[0]["products"] == prod
+    if len(out) != 1:
+        return False
+    r1, p1 = _side_comp(out[0]["reactants"]), _side_comp(out[0]["products"])
+    if r1 is None or p1 is None:
+        return False  # a side was turned into something that is not a list of molecules
+    if out[0].get("new_reaction") != out[0]["reactants"] + ">>" + out[0]["products"]:
+        return False
+    for k in set(r0) | set(p0) | set(r1) | set(p1):
+        if (r0.get(k, 0) - p0.get(k, 0)) != (r1.get(k, 0) - p1.get(k, 0)):
+            return False
+    return True
+
+
 def h_two_databases(h: int) -> bool:
     """
     pre: 1 <= h <= 2
@@ -491,6 +545,8 @@ def plan(tier):
     for xi in range(len(BAN_X)):
         P.append(Part(H + "h_ban_filter", {"x": xi}, "ban_filter[%s]" % (BAN_X[xi] or "none"), group="ban", timeout=900))
     P.append(Part(H + "h_ban_filter", {"x": 0, "twin": 1}, "ban_filter.twin", kind="twin", group="ban"))
+    P.append(Part(H + "h_redox_rewrite", {}, "redox_rewrite[conserves atoms]", group="ban", timeout=900))
+    P.append(Part(H + "h_redox_rewrite", {"twin": 1}, "redox_rewrite.twin", kind="twin", group="ban"))
     for hh in (1, 2):
         P.append(Part(H + "h_two_databases", {"h": hh}, "single_impute.two-databases[H%d]" % hh, group="impute", timeout=600))
     P.append(Part(H + "h_two_databases", {"h": 2, "twin": 1}, "single_impute.two-databases.twin", kind="twin", group="impute"))
@@ -507,8 +563,16 @@ def _ban_list_from_source():
     tree = S.function_ast(rb.RuleBasedMethod.run)
     for node in ast.walk(tree):
         if isinstance(node, ast.keyword) and node.arg == "ban_atoms":
-            return ast.literal_eval(node.value)
-    raise RuntimeError("ban_atoms literal not found in RuleBasedMethod.run (patch point missing)")
+            try:
+                return list(ast.literal_eval(node.value))
+            except Exception:
+                # not a literal any more (a module constant, a comprehension, ...): evaluate the expression in the
+                # module's own namespace
+                return list(eval(compile(ast.Expression(node.value), "<ban_atoms>", "eval"), dict(rb.__dict__)))
+    # no ban_atoms argument: the class default applies
+    from synrbl.SynRuleImputer.synthetic_rule_constraint import RuleConstraint
+
+    return list(RuleConstraint([]).ban_atoms)
 
 
 def extra(tier):
